@@ -827,8 +827,36 @@ func (g *FuncGen) execFor(x *ast.ForStmt, st *State) Flow {
 		st = g.execStmt(x.Init, st).next
 	}
 	bodyPos := x.Body.Lbrace
+	// a counting loop "for i := 0; i < len(X); i++" whose body assigns neither i nor X is a range loop written out:
+	// invariants may call its counter "it", and 0 <= i <= len(X) is an invariant that is checked like a stated one
+	ivObj, ivBound := g.countingLoop(x)
+	itOf := func(s *State) map[string]Val {
+		if ivObj == nil || s == nil {
+			return nil
+		}
+		if v, ok := s.vars[ivObj]; ok {
+			return map[string]Val{"it": v}
+		}
+		return nil
+	}
+	autoInv := func(s *State) string {
+		if ivObj == nil || s == nil {
+			return ""
+		}
+		iv, ok := s.vars[ivObj]
+		if !ok {
+			return ""
+		}
+		g.quiet++
+		n := g.ev(ivBound, s)
+		g.quiet--
+		return fmt.Sprintf("(and (<= 0 %s) (<= %s %s))", iv.T, iv.T, n.T)
+	}
 	// 1. invariant on entry
-	g.checkInvariants(st, ls, ord, "inv-entry", bodyPos, nil)
+	g.checkInvariants(st, ls, ord, "inv-entry", bodyPos, itOf(st))
+	if f := autoInv(st); f != "" {
+		g.oblige(st, fmt.Sprintf("inv-entry/loop%d", ord), "counter-range", nil, f, bodyPos, "0 <= counter <= bound (counting loop)")
+	}
 	// 2. havoc loop targets
 	ws := newWriteSet()
 	g.scanWrites(x.Body, ws)
@@ -847,8 +875,11 @@ func (g *FuncGen) execFor(x *ast.ForStmt, st *State) Flow {
 	for _, k := range fkeys {
 		g.assume(head, g.frameFormula(head, k))
 	}
-	g.assumeInvariants(head, ls, bodyPos, nil)
-	dec0 := g.decValues(head, ls, bodyPos, nil)
+	g.assumeInvariants(head, ls, bodyPos, itOf(head))
+	if f := autoInv(head); f != "" {
+		g.assume(head, f)
+	}
+	dec0 := g.decValues(head, ls, bodyPos, itOf(head))
 	// 3. condition
 	var bodySt, exitSt *State
 	if x.Cond != nil {
@@ -867,9 +898,12 @@ func (g *FuncGen) execFor(x *ast.ForStmt, st *State) Flow {
 		for _, k := range fkeys {
 			g.oblige(back, fmt.Sprintf("frame-keep/loop%d", ord), k, nil, g.frameFormula(back, k), x.Pos(), k+" unchanged on objects existing at entry")
 		}
-		g.checkInvariants(back, ls, ord, "inv-keep", bodyPos, nil)
+		g.checkInvariants(back, ls, ord, "inv-keep", bodyPos, itOf(back))
+		if f := autoInv(back); f != "" {
+			g.oblige(back, fmt.Sprintf("inv-keep/loop%d", ord), "counter-range", nil, f, bodyPos, "0 <= counter <= bound (counting loop)")
+		}
 		if dec0 != nil {
-			dec1 := g.decValues(back, ls, bodyPos, nil)
+			dec1 := g.decValues(back, ls, bodyPos, itOf(back))
 			g.oblige(back, fmt.Sprintf("dec/loop%d", ord), "", ls.Decreases.Tags, lexLess(dec1, dec0), x.Pos(), "decreases "+ls.Decreases.Src)
 		}
 	}
@@ -1078,4 +1112,73 @@ func (g *FuncGen) frameFormula(st *State, k string) string {
 		}
 	}
 	return fmt.Sprintf("(forall ((r Int)) (! (=> (select alloc_0 r) (= (select %s r) (select %s r))) :pattern ((select %s r))))", cur, e, cur)
+}
+
+// countingLoop recognises "for i := 0; i < len(X); i++ { body }" where the body assigns neither i nor (syntactically)
+// the variable X; it returns i's object and the bound expression len(X).
+func (g *FuncGen) countingLoop(x *ast.ForStmt) (types.Object, ast.Expr) {
+	init, ok := x.Init.(*ast.AssignStmt)
+	if !ok || init.Tok != token.DEFINE || len(init.Lhs) != 1 || len(init.Rhs) != 1 {
+		return nil, nil
+	}
+	id, ok := init.Lhs[0].(*ast.Ident)
+	if !ok {
+		return nil, nil
+	}
+	if lit, ok := init.Rhs[0].(*ast.BasicLit); !ok || lit.Value != "0" {
+		return nil, nil
+	}
+	post, ok := x.Post.(*ast.IncDecStmt)
+	if !ok || post.Tok != token.INC {
+		return nil, nil
+	}
+	if pid, ok := post.X.(*ast.Ident); !ok || pid.Name != id.Name {
+		return nil, nil
+	}
+	cond, ok := x.Cond.(*ast.BinaryExpr)
+	if !ok || cond.Op != token.LSS {
+		return nil, nil
+	}
+	if cid, ok := cond.X.(*ast.Ident); !ok || cid.Name != id.Name {
+		return nil, nil
+	}
+	call, ok := cond.Y.(*ast.CallExpr)
+	if !ok || len(call.Args) != 1 {
+		return nil, nil
+	}
+	if fn, ok := call.Fun.(*ast.Ident); !ok || fn.Name != "len" {
+		return nil, nil
+	}
+	obj := g.info.Defs[id]
+	if obj == nil {
+		return nil, nil
+	}
+	ws := newWriteSet()
+	g.scanWrites(x.Body, ws)
+	if ws.all || ws.vars[obj] {
+		return nil, nil
+	}
+	// the collection must be a plain variable or field path that the body does not assign
+	switch c := call.Args[0].(type) {
+	case *ast.Ident:
+		if o := g.info.ObjectOf(c); o == nil || ws.vars[o] {
+			return nil, nil
+		}
+	case *ast.SelectorExpr:
+		cws := newWriteSet()
+		g.scanLhs(c, cws)
+		for k := range cws.fields {
+			if ws.fields[k] {
+				return nil, nil
+			}
+		}
+		for o := range cws.vars {
+			if ws.vars[o] {
+				return nil, nil
+			}
+		}
+	default:
+		return nil, nil
+	}
+	return obj, cond.Y
 }
